@@ -158,6 +158,7 @@ def real_headers(rng, names, edges, funcs_only, force_hidden=False):
     order = _topo(k, edges)
     acyclic = order is not None
     classes = {u: ["%s_K0" % names[u].capitalize()] for u in range(k)}
+    hidden = {u: [] for u in range(k)}       # classes without published members, which other libraries may derive from as well
     files = {}
     for u in (order if acyclic else range(k)):
         U = names[u].capitalize()
@@ -180,10 +181,15 @@ def real_headers(rng, names, edges, funcs_only, force_hidden=False):
                 h = how[(u, v)]
                 base = rng.choice(classes[v]) if acyclic else classes[v][0]
                 if h in ("derive", "both"):
+                    if acyclic and hidden[v] and rng.chance(1, 3):
+                        # derive from an unpublished intermediate class of the *other* library: only that library's
+                        # database records what the intermediate class derives from
+                        base = rng.choice(hidden[v])
                     if force_hidden or rng.chance(1, 2):
                         # the inheritance goes through an intermediate class that publishes nothing
                         out += ["class %s_H%d : public %s {" % (U, n, base), "public:", "  int hidden_%d();" % n, "};"]
                         base = "%s_H%d" % (U, n)
+                        hidden[u].append(base)
                     out += ["%s %s_D%d : public %s {" % (rng.choice(["class", "struct", "struct"]), U, n, base), "__published:", "  %s_D%d();" % (U, n), "  int d%d() const;" % n, "};"]
                     classes[u].append("%s_D%d" % (U, n))
                 if h in ("typedef", "both"):
